@@ -16,7 +16,7 @@ func init() {
 	register(&Property{
 		ID:          "C19",
 		Engines:     []string{"cfg", "lockset"},
-		Explanation: "Executors, structural part: every failed fork is undone before the next fork or return, the worker defers its decrement, and no other code decrements the running-worker counter (O1); the go statement in fork sits on the true edge of a comparison of the atomic increment's own result with the bound, and Stop saturates the counter before closing (O2); task functions are invoked only in frames that defer recover(), and a task received from the queue goes to exactly one of fork / caller (O3); the counter is atomic-only and asyncList is guarded by asyncMux (O4); Timer.Async starts its drainer only on 'list was empty' inside the append's critical section, and the drainer's exhaustion test and reset are one critical section, functions run unlocked inside a recover frame in index order (O5). Every return of fork carries the +1 its callers undo (O6). Recover frames do not assert the panic value (O8); Async only queues (O9); IO buffers survive a panicking task (O10).",
+		Explanation: "Executors, structural part: every failed fork is undone before the next fork or return, the worker defers its decrement, and no other code decrements the running-worker counter (O1); the go statement in fork sits on the true edge of a comparison of the atomic increment's own result with the bound, and Stop saturates the counter before closing (O2); task functions are invoked only in frames that defer recover(), and a task received from the queue goes to exactly one of fork / caller (O3); the counter is atomic-only and asyncList is guarded by asyncMux (O4); Timer.Async starts its drainer only on 'list was empty' inside the append's critical section, and the drainer's exhaustion test and reset are one critical section, functions run unlocked inside a recover frame in index order (O5). Every return of fork carries the +1 its callers undo (O6). Recover frames do not assert the panic value (O8); Async only queues (O9); IO buffers survive a panicking task (O10). The dispatcher drains before it leaves (O11).",
 		NotCovered:  "exactly-once / FIFO under all interleavings, submissions racing Stop, the barrier-of-waiting-tasks behaviour itself",
 		Run:         runC19,
 	})
